@@ -8,6 +8,8 @@ Theorem C03_parsing_finished_counts :
   forall c ls s tr, exec c ls = Some (s, tr) -> pf s = fold_left pf_add ls (0, 0, 0, 0, 0).
 Proof. intros c ls s tr H. exact (pf_counts c ls _ _ _ H). Qed.
 
+(* [definitional] unfolds the model's own definition: a pinned reading of the model (it breaks when the model is edited),
+   not evidence for the property by itself — the model is tied to the code by the correspondence check *)
 Theorem C03_parsing_finished_event :
   forall c s s' o, step c s LParserEnd = Some (s', o) ->
     o = [let '(a, b, c0, d, e) := pf s in EvParsingFinished a b c0 d e] /\ pdone s = false /\ pdone s' = true.
